@@ -229,8 +229,10 @@ package netpoll
 //@   ghost before call dyn#1: discRuns = discRuns + 1
 //@   ghost before call dyn#2: discRuns = discRuns + 1
 
+// a peer close wakes a blocked reader and a blocked flusher before any user callback (OnDisconnect, close callbacks) runs: a callback
+// that waits for the reader goroutine must not be able to keep it blocked (C07, C08)
 //@ func (*connection).onHup
-//@   property C05 C09
+//@   property C05 C07 C09
 //@   requires cinv(c) && !c.heldC && !c.heldP && !c.sealed_heldP
 //@   threadlocal !hupDisc
 //@   rely locker.keychain[closing]: (was != 0 ==> now != 0) && now >= 0 && now <= 2
@@ -239,6 +241,10 @@ package netpoll
 //@   ensures cbRuns > old(cbRuns) ==> hupDisc
 //@   modifies world, c.heldP, c.heldC, c.sealed_heldP, cbRuns, ocTrigR, ocTrigW, discRuns, hupDisc
 //@   ghost after call (*connection).onDisconnect#1: hupDisc = true
+//@   ghost at entry: ocTrigR = false; ocTrigW = false
+//@   ghost after call (*connection).triggerRead#1: ocTrigR = true
+//@   ghost after call (*connection).triggerWrite#1: ocTrigW = true
+//@   ghost before call (*connection).onDisconnect#1: assert ocTrigR && ocTrigW
 //@   ghost before call (*connection).closeCallback#1: assert hupDisc
 
 //@ func (*connection).SetOnRequest
